@@ -34,6 +34,18 @@ MkTypes(tss, pms) ==
     [i \in 1..(Len(tss) * Len(pms)) |->
         MT(tss[((i - 1) \div Len(pms)) + 1][1], tss[((i - 1) \div Len(pms)) + 1][2], pms[((i - 1) % Len(pms)) + 1])]
 
+(* ranges with q at every position among their parameters (first / middle / last) *)
+Positions(pm, q) == IF q = QABSENT THEN {Len(pm)} ELSE 0..Len(pm)
+MkRangesP(tss, pms, qs) ==
+    UNION {{MRP(ts[1], ts[2], pm, q, qp) : qp \in Positions(pm, q)} : ts \in Seq2Set(tss), pm \in Seq2Set(pms), q \in qs}
+(* position vocabulary: ranges with 0-2 parameters x q absent / 0 / 0.5004 x every position; candidates of one
+   type that carry / lack / differ in each parameter *)
+TsRP    == <<TS("a", "x"), TS("a", "*"), TS("*", "*")>>
+PmapsRP == <<(<<>>), <<P1>>, <<P1, R1>>>>
+TsMP    == <<TS("a", "x")>>
+RangesP == MkRangesP(TsRP, PmapsRP, {QABSENT, 0, 500400}) \cup BadRanges \cup {MRP("a", "x", <<P1>>, QBAD, 0)}
+AllMP   == MkTypes(TsMP, PmapsT)
+MTypesP == Seq2Set(AllMP)
 RangesQ == MkRanges(TsRQ, PmapsRQ, QsQ)
 RangesT == MkRanges(TsRT, PmapsT, QsT)
 AllMQ   == MkTypes(TsMQ, PmapsMQ)
@@ -41,7 +53,8 @@ AllMT   == MkTypes(TsMT, PmapsT)
 MTypesQ == Seq2Set(AllMQ)
 MTypesT == Seq2Set(AllMT)
 (* simulation vocabulary: everything *)
-RangesS == MkRanges(TsRQ, PmapsT, {QABSENT, 0, 100, 400, 500100, 500400, 999900, QONE}) \cup {MR("b", "y", <<P1>>, QBAD)}
+RangesS == MkRangesP(TsRQ, PmapsT, {QABSENT, 0, 100, 400, 500100, 500400, 999900, QONE}) \cup BadRanges
+           \cup {MR("b", "y", <<P1>>, QBAD), MRP("b", "y", <<P1>>, QBAD, 0)}
 AllMS   == MkTypes(TsMT, PmapsT)
 MTypesS == Seq2Set(AllMS)
 
@@ -56,7 +69,8 @@ EmitTable == (hdr # <<>> /\ cands = <<>>) =>
     PrintT(ToJson([hdr |-> hdr,
                    q   |-> [i \in DOMAIN AllM |-> QualityOutcome(hdr, AllM[i])],
                    acc |-> [i \in DOMAIN AllM |-> AcceptsOutcome(hdr, AllM[i]).v],
-                   nm  |-> [i \in DOMAIN AllM |-> Cardinality(Matching(hdr, AllM[i]))]]))
+                   nm  |-> [i \in DOMAIN AllM |-> Cardinality(Matching(hdr, AllM[i]))],
+                   best |-> BestOutcome(hdr, AllM), pref |-> PrefersOutcome(hdr, AllM)]))
 (* the order of the table columns, printed once *)
 ASSUME PrintT(ToJson([allm |-> AllM]))
 
